@@ -1074,6 +1074,20 @@ def rule_stores(ctx: Ctx) -> None:
         cfg = ctx.cfg(fn)
         d = Defs(fn)
         stores = set(cfg.nodes(lambda s: isinstance(s, ast.Assign) and any(isinstance(t, ast.Subscript) and _self_attr(t.value) == "_cache_dict" and norm(t.slice) == key for t in s.targets)))
+        paired_value: dict[int, ast.AST] = {}
+        if not stores:
+            # `for table, cell in ((self._cache_dict, stored), (self._access_counts, 1), ...): table[key] = cell`
+            for lp in [x for x in walk_no_nested(fn.node) if isinstance(x, ast.For) and isinstance(x.iter, (ast.Tuple, ast.List)) and isinstance(x.target, ast.Tuple) and len(x.target.elts) == 2
+                       and all(isinstance(e, ast.Name) for e in x.target.elts) and all(isinstance(e, ast.Tuple) and len(e.elts) == 2 for e in x.iter.elts)]:
+                tname, cname_ = lp.target.elts[0].id, lp.target.elts[1].id
+                cells = [e.elts[1] for e in lp.iter.elts if _self_attr(e.elts[0]) == "_cache_dict"]
+                if not cells:
+                    continue
+                for st in lp.body:
+                    if isinstance(st, ast.Assign) and any(isinstance(t, ast.Subscript) and isinstance(t.value, ast.Name) and t.value.id == tname and norm(t.slice) == key for t in st.targets) and norm(st.value) == cname_:
+                        nd_ = cfg.node(lp)  # the loop as a whole stores (its iterable is a non-empty literal)
+                        stores.add(nd_)
+                        paired_value[nd_] = cells[0]
         if not stores:
             anywhere = [n for _f, n in Scope(ctx, fn).walk() if isinstance(n, ast.Assign) and any(isinstance(t, ast.Subscript) and _self_attr(t.value) == "_cache_dict" for t in n.targets)]
             ctx.tri("8-stores", fn, fn.node, False, not anywhere, "", f"{cname}.put never stores into self._cache_dict", "the store happens in a helper; path coverage not decided", key=f"{cname}.put stores")
@@ -1082,7 +1096,7 @@ def rule_stores(ctx: Ctx) -> None:
         wp = None if ok else cfg.witness_path(ENTRY, EXIT, stores)
         ctx.add("8-stores", fn, fn.node, ok, "every normal path of put() stores under the key" if ok else
                 f"a path through {cname}.put returns without storing the value: `key in cache` holds but get() returns an older value", key=f"{cname}.put stores", path=cfg.describe(wp, fn.module.relpath) if wp else None)
-        flows = all(_value_flows(d, cfg.stmt[n].value, value) for n in stores)
+        flows = all(_value_flows(d, paired_value[n] if n in paired_value else cfg.stmt[n].value, value) for n in stores)
         ctx.tri("8-stores", fn, cfg.stmt[sorted(stores)[0]], flows, False, f"the stored object is derived from `{value}`", "", f"the stored expression does not mention `{value}` after following local definitions", key=f"{cname}.put value")
     dp = ctx.prog.func(f"{MOD}.DiskCache.put")
     params = [p for p in dp.param_names() if p != "self"]
